@@ -591,7 +591,7 @@ fn mecab_case(rng: &mut Rng, id: &str, fixed: bool, out: &mut dyn Write) {
     .unwrap();
 }
 
-pub fn run(seed: u64, n: usize, out: &mut dyn Write) {
+pub fn run(seed: u64, n: usize, only_mecab: bool, out: &mut dyn Write) {
     let mut rng = Rng::new(seed ^ 0x657874);
     // which edge-reuse policy does the rewriter of this source tree use? (finding F10)
     let s = |v: &[&str]| -> Vec<String> { v.iter().map(|x| x.to_string()).collect() };
@@ -601,7 +601,8 @@ pub fn run(seed: u64, n: usize, out: &mut dyn Write) {
     for made in 0..n {
         let id = format!("{seed}.{made}");
         let mut crng = rng.fork();
-        match rng.below(20) {
+        let pick = if only_mecab { 19 } else { rng.below(20) };
+        match pick {
             0..=6 => expand_case(&mut crng, &id, out),
             7..=10 => session_case(&mut crng, &id, out),
             11 | 12 => featset_case(&mut crng, &id, fixed, out),
